@@ -621,8 +621,10 @@ func (c *aCtx) do(k aKey) *aRes {
 	f2, has2 := readOpt(attrFile)
 	r.File2 = f2
 	r.Rerun = has2 != r.HasFile1 || f2 != r.File1
-	// untrack (pattern mode: the argument of untrack is a pattern, the same one)
-	if k.mode == modePattern {
+	// untrack (pattern mode: the argument of untrack is a pattern, the same one; --filename mode: only for a name that has no glob
+	// character, no backslash and no leading `!`: read as a pattern it denotes exactly the literal path, so `untrack N` is its undo).
+	// It runs AFTER the re-run: whatever the re-run left in the file (a second copy of the line) must be gone as well.
+	if k.mode == modePattern || literalPattern(arg) == arg {
 		res3 := h.w.LFS(cwd, "untrack", "--", arg)
 		if res3.TimedOut || res3.Code == -2 {
 			r.Inconcl = "git lfs untrack timed out"
@@ -731,7 +733,7 @@ func (c *aCtx) run(x *vx.X) vx.Result {
 	sample["lfs_according_to_git"] = capList(r.Lfs, 8)
 	out.Sample = sample
 	out.Evals = int64(r.Universe) + 1
-	if mode == modePattern {
+	if mode == modePattern || literalPattern(r.Arg) == r.Arg {
 		out.Evals += int64(len(r.Denoted))
 	}
 	var verdict []string
@@ -890,6 +892,7 @@ type bCtx struct {
 	probes  []string  // probe paths of this configuration
 	inits   []*bInit  // initial files (model / static attributes computed on first use)
 	pre     *preSpace // non-nil: configuration of scenario "pre" (initial files generated from the line/file grammar)
+	depth   int       // scenario "seq": >0 = every sequence of at most depth operations (stated bound) instead of closure
 }
 
 func (c *bCtx) opString(o bOp) string {
@@ -899,7 +902,7 @@ func (c *bCtx) opString(o bOp) string {
 		cwd = e.Cwd
 	}
 	args := kindName[o.Kind]
-	if e.Filename {
+	if e.Filename && o.Kind != kUntrack {
 		args += " --filename"
 	}
 	return fmt.Sprintf("(cd %s && git lfs %s -- %s)", cwd, args, q(e.Pat))
@@ -1113,8 +1116,8 @@ func (c *bCtx) execSeq(ii int, ops []int, raw bool) (vx.Result, []stepV) {
 			}
 		}
 		args := strings.Fields(kindName[o.Kind])
-		if e.Filename {
-			args = append(args, "--filename")
+		if e.Filename && o.Kind != kUntrack {
+			args = append(args, "--filename") // untrack has no such flag: its argument is the name itself (offered for names without glob characters only)
 		}
 		args = append(args, "--", e.Pat)
 		res := h.w.LFS(filepath.Join(repo, e.Cwd), args...)
@@ -1477,6 +1480,12 @@ var (
 	eGitStar   = bEntry{Cwd: "", Pat: ".git*", MayFail: true, Kinds: []int{kTrack}}               // refused, exit 1
 	eSubIgnore = bEntry{Cwd: "sub", Pat: ".gitignore", MayFail: true, Kinds: []int{kTrack}}       // refused inside sub/
 	eInSubTU   = bEntry{Cwd: "sub", Pat: "*.dat", Kinds: []int{kTrack, kTrackL, kUntrack}}        // gives sub/.gitattributes a content
+	// a literal name that needs escapes but has no glob characters, given with --filename: as a pattern it denotes exactly the same
+	// paths, so `git lfs untrack 'my file#1.dat'` is the operation that undoes it
+	eMyF      = bEntry{Cwd: "", Pat: "my file#1.dat", Filename: true}
+	eInSubMyF = bEntry{Cwd: "sub", Pat: "my file#1.dat", Filename: true}
+	eBinT     = bEntry{Cwd: "", Pat: "*.bin", Kinds: []int{kTrack}}
+	eBinTU    = bEntry{Cwd: "", Pat: "*.bin", Kinds: []int{kTrack, kUntrack}}
 )
 
 func initPool() map[string]func() *bInit {
@@ -1491,7 +1500,7 @@ func initPool() map[string]func() *bInit {
 		}
 		big += fmt.Sprintf("*.u%03d text eol=lf diff=u%03d whitespace=trailing-space,space-before-tab,indent-with-non-tab\n", i, i)
 	}
-	pres := map[string]bool{"*.bin": true, "my file#1.dat": false, "sub/*.dat": true}
+	pres := map[string]bool{"*.bin": true, "my file#1.dat": false, "--filename my file#1.dat": false, "sub/*.dat": true}
 	type namedInit struct {
 		Name    string
 		HasRoot bool
@@ -1507,6 +1516,9 @@ func initPool() map[string]func() *bInit {
 		{Name: "crlf+patterns-present+no-final-newline", HasRoot: true, Root: strings.TrimSuffix(strings.ReplaceAll(present, "\n", "\r\n"), "\r\n"), Present: pres},
 		{Name: "mixed-line-endings", HasRoot: true, Root: "*.txt text\r\n*.png -text\n*.crlf text eol=crlf\r\n\r\n" + lfsLine("sub/*.dat", "") + "\r\n", Present: map[string]bool{"sub/*.dat": false}},
 		{Name: "empty-file", HasRoot: true, Root: ""},
+		// the literal name is already listed twice (as after a merge that kept both sides' additions), CRLF endings, no final newline
+		{Name: "crlf+name-present-twice+no-final-newline", HasRoot: true, Root: "*.txt text\r\nmy[[:space:]]file\\#1.dat filter=lfs -text\r\n" + lfsLine("*.bin", " lockable foo=bar") + "\r\n*.png -text\r\n" + lfsLine("my[[:space:]]file\\#1.dat", ""),
+			Present: map[string]bool{"*.bin": true, "my file#1.dat": false, "--filename my file#1.dat": false}},
 		{Name: "big-10k", HasRoot: true, Root: big},
 	}
 	m := map[string]func() *bInit{}
@@ -1526,19 +1538,27 @@ func seqConfigs(h *harness, thorough bool) []*bCtx {
 		entries []bEntry
 		inits   []string
 		world   string
+		depth   int // >0: every sequence of at most this many operations instead of closure (alphabets whose state space may not close)
 	}
 	var cfgs []cfg
 	if !thorough {
 		cfgs = []cfg{
-			{"q", []bEntry{eMy, eSubDat, eInSub}, []string{"absent", "comments+macro+unrelated+blank-lines", "crlf+patterns-present+no-final-newline"}, ""},
+			{"q", []bEntry{eMy, eSubDat, eInSub}, []string{"absent", "comments+macro+unrelated+blank-lines", "crlf+patterns-present+no-final-newline"}, "", 0},
 			// failing invocations (refused patterns, a file that cannot be touched) over non-empty files, one of them > 4 KiB
-			{"qf", []bEntry{eMov, eIgnore, eInSubTU, eSubIgnore}, []string{"comments+macro+unrelated+blank-lines", "big-10k", "crlf+patterns-present+no-final-newline"}, "idx"},
+			{"qf", []bEntry{eMov, eIgnore, eInSubTU, eSubIgnore}, []string{"comments+macro+unrelated+blank-lines", "big-10k", "crlf+patterns-present+no-final-newline"}, "idx", 0},
+			// a --filename entry whose name needs escapes: on the unchanged tree every re-run appends the line again (finding 6), so the
+			// state space does not close; every sequence of at most 3 operations (track F; track F; untrack F and the lockable flips)
+			{"qd", []bEntry{eMyF, eBinT}, []string{"absent", "comments+macro+unrelated+blank-lines", "crlf+name-present-twice+no-final-newline"}, "", 3},
 		}
 	} else {
 		cfgs = []cfg{
-			{"t1", []bEntry{eBin, eMy, eSubDat, eInSub}, []string{"absent", "comments+macro+unrelated+blank-lines", "crlf", "patterns-present-with-extra-attributes", "no-final-newline", "crlf+patterns-present+no-final-newline", "mixed-line-endings", "empty-file"}, ""},
-			{"t2", []bEntry{ePsd, eInSubMy, eInSub}, []string{"absent", "comments+macro+unrelated+blank-lines", "crlf+patterns-present+no-final-newline", "no-final-newline"}, ""},
-			{"tf", []bEntry{eMov, eIgnore, eGitStar, eInSubTU, eSubIgnore}, []string{"absent", "comments+macro+unrelated+blank-lines", "big-10k", "crlf+patterns-present+no-final-newline", "no-final-newline", "mixed-line-endings"}, "idx"},
+			{"t2", []bEntry{ePsd, eInSubMy, eInSub}, []string{"absent", "comments+macro+unrelated+blank-lines", "crlf+patterns-present+no-final-newline", "no-final-newline"}, "", 0},
+			{"tf", []bEntry{eMov, eIgnore, eGitStar, eInSubTU, eSubIgnore}, []string{"absent", "comments+macro+unrelated+blank-lines", "big-10k", "crlf+patterns-present+no-final-newline", "no-final-newline", "mixed-line-endings"}, "idx", 0},
+			// --filename entries whose name needs escapes (re-running appends a line every time on the unchanged tree: the state space does not close)
+			{"td", []bEntry{eMyF, eBinTU}, []string{"absent", "comments+macro+unrelated+blank-lines", "crlf+name-present-twice+no-final-newline"}, "", 4},
+			{"td2", []bEntry{eInSubMyF, eBinT}, []string{"absent", "no-final-newline"}, "", 4},
+			// the largest alphabet last: under overload the internal deadline then cuts only this one
+			{"t1", []bEntry{eBin, eMy, eSubDat, eInSub}, []string{"absent", "comments+macro+unrelated+blank-lines", "crlf", "patterns-present-with-extra-attributes", "no-final-newline", "crlf+patterns-present+no-final-newline", "mixed-line-endings", "empty-file"}, "", 0},
 		}
 	}
 	pool := initPool()
@@ -1546,8 +1566,11 @@ func seqConfigs(h *harness, thorough bool) []*bCtx {
 	for i, cf := range cfgs {
 		c := &bCtx{name: cf.name, world: cf.world, ci: i, nc: len(cfgs), h: h, entries: cf.entries, maxLen: 40, probes: bProbes}
 		for _, n := range cf.inits {
-			c.inits = append(c.inits, pool[n]())
+			in := pool[n]()
+			in.DepthCap = cf.depth
+			c.inits = append(c.inits, in)
 		}
+		c.depth = cf.depth
 		c.setup()
 		out = append(out, c)
 	}
@@ -1561,8 +1584,9 @@ func (c *bCtx) setup() {
 			kinds = []int{kTrack, kTrackL, kTrackNL, kUntrack}
 		}
 		for _, k := range kinds {
-			if k == kUntrack && e.Filename {
-				continue // untrack has no --filename: which argument would undo it is not documented
+			if k == kUntrack && e.Filename && literalPattern(e.Pat) != e.Pat {
+				continue // untrack has no --filename: which argument would undo a name with glob characters is not documented
+				// (a name without glob characters, backslashes and a leading `!` IS the pattern that denotes exactly it: `untrack N` applies)
 			}
 			c.ops = append(c.ops, bOp{k, i})
 		}
@@ -1735,36 +1759,41 @@ func TestVerifC19(t *testing.T) {
 		for _, in := range b.inits {
 			il = append(il, in.Name)
 		}
-		seqB = append(seqB, map[string]interface{}{"config": b.name, "entries": el, "initial_files": il, "operations": len(b.ops), "world": map[string]string{"": "empty repository", "idx": "committed .gitignore, sub/.gitignore, keep.mov and gone.mov (gone.mov deleted from the work tree)"}[b.world]})
+		seqB = append(seqB, map[string]interface{}{"config": b.name, "entries": el, "initial_files": il, "operations": len(b.ops), "search": map[bool]string{false: "to closure", true: fmt.Sprintf("every sequence of at most %d operations (re-running track --filename appends a line on every run, the state space does not close)", b.depth)}[b.depth > 0], "world": map[string]string{"": "empty repository", "idx": "committed .gitignore, sub/.gitignore, keep.mov and gone.mov (gone.mov deleted from the work tree)"}[b.world]})
 	}
 	c.Bounds["seq_configurations"] = seqB
 	c.Bounds["seq_probe_paths"] = len(bProbes)
 	c.Rule = "names: every name of length<=L over the palette plus the glob grammar, as `git lfs track --filename -- N` and as `git lfs track -- N`, in the root, as dir/N from the root and invoked inside dir/; " +
 		"Git's `check-attr filter` over ~1500 probe paths (all names of length<=2, every one-edit neighbour of N, a fixed list of glob witnesses, each under 4-9 directory prefixes) must be lfs exactly on the literal path (--filename) " +
-		"or exactly on what Git's wildmatch says for the same pattern written C-quoted by hand (pattern); re-running leaves the file byte-identical; after `git lfs untrack -- N` no denoted path is lfs. " +
+		"or exactly on what Git's wildmatch says for the same pattern written C-quoted by hand (pattern); re-running leaves the file byte-identical; after `git lfs untrack -- N` (run after the re-run; pattern mode, and --filename mode for names without glob characters/backslash/leading `!`) no denoted path is lfs. " +
 		"A names case is non-trivial when track exited 0 and the argument denotes at least one probe path; distinct by (mode, placement, name). " +
 		"seq: BFS to closure from each initial .gitattributes over {track, track --lockable, track --not-lockable, untrack} x entries (cwd, pattern); state = bytes of ./.gitattributes and sub/.gitattributes (absent != empty), plus the permission bits of the committed work-tree files in the configurations with an index; " +
 		"those configurations add invocations that git-lfs refuses (block-listed .gitignore / .git*) or cannot complete (pattern matching an index entry whose file is gone): for an invocation that exits non-zero only `attributes of all non-denoted probes unchanged` is demanded; " +
 		"every (state, op) pair is executed once on the real binary and `check-attr -a` over the probe paths is compared before/after; a transition is non-trivial when its pattern denotes a probe path; distinct by (state hash, op). " +
 		"Violations carry the locally minimal failing name (delete a character / replace by 'a' / move to root) so that one defect class has one fingerprint. " +
-		"pre: the same search and the same clauses as seq, started from pre-existing files GENERATED from a grammar: a file is a vector over 10 dimensions (line terminator, separator after the pattern, leading/trailing blanks, " +
+		"pre: the same search and the same clauses as seq, started from pre-existing files GENERATED from a grammar: a file is a vector over 11 dimensions (line terminator, separator after the pattern, leading/trailing blanks, " +
 		"attribute list of the generated line incl. spellings that do not mean filter=lfs and a macro, pattern glob/with space, pattern spelling own/C-quoted, position of the line among unrelated/comment/blank/[attr] lines, UTF-8 BOM, " +
-		"root file / sub/.gitattributes / root file with operations inside sub/); value 0 of every dimension is what git-lfs itself writes; EVERY valid vector with at most max_deviations non-default coordinates is a start state " +
+		"root file / sub/.gitattributes / root file with operations inside sub/, multiplicity of the pattern: once / twice adjacent / twice separated by another line / three times / twice in different spellings / " +
+		"LFS line + `P lockable` line in both orders); value 0 of every dimension is what git-lfs itself writes; EVERY valid vector with at most max_deviations non-default coordinates is a start state " +
 		"(bounds.pre lists dimensions, values and counts); operations = {track, track --lockable, track --not-lockable, untrack} on the generated line's pattern and on another pattern (*.bin); files with at most " +
 		"searched_to_closure_up_to_deviations deviations are searched to closure, the others by every sequence of sequence_length_for_files_with_more_deviations operation(s); " +
-		"a failure's fingerprint names the clause, the operation, the role of its pattern (same/other/below) and the locally minimal set of deviations that still fails on the same operations (greedy removal of one deviation at a time)."
+		"a failure's fingerprint names the clause, the operation, the role of its pattern (same/other/below) and the locally minimal set of deviations that still fails on the same operations (greedy removal of one deviation at a time; " +
+		"a multiplicity that cannot be removed is replaced by `twice adjacent` when that still fails). " +
+		"seq configurations with a sequence-length bound (a --filename entry whose name needs escapes: re-running appends a line each time, the state space does not close) are searched by every sequence of at most that many operations; " +
+		"there `git lfs untrack N` is the undo of `git lfs track --filename N` because N has no glob character (as a pattern it denotes exactly the literal path)."
 	c.Assumptions = []string{
 		"Git 2.39 `git check-attr` is the authority on what a .gitattributes means; a pattern's denotation is what Git reports for the same pattern written C-quoted by hand",
 		"the future behaviour of track/untrack depends only on the bytes of the two attribute files (no tracked files, no info/attributes, no global attributes in the scenario)",
 		"seq probe set deliberately has no path differing from `my file#1.dat` only in the kind of whitespace: that class is covered (and reported) by the names scenario",
 		"`./`-prefixed arguments are outside the enumerated grammar (git-lfs strips the prefix on purpose; Git itself would match nothing)",
-		"untrack is only demanded to undo a pattern-mode track with the identical argument (untrack has no --filename)",
+		"untrack is only demanded to undo a pattern-mode track with the identical argument, or a --filename track of a name that has no glob character, no backslash and no leading `!` (untrack has no --filename; such a name read as a pattern denotes exactly the literal path)",
 		"an invocation counts as FAILED only when git-lfs exits non-zero AND its pattern matches an index entry of the scenario (refusal / touch failure are legitimate there); a non-zero exit anywhere else is judged by the full clauses",
 		"lockable clauses demand only what docs/man/git-lfs-track.adoc states: --lockable makes the denoted paths lockable; --not-lockable removes the flag (a path stays lockable only where another tracked pattern of the sequence still asks for it); plain track leaves lockable as it was",
 		"`--filename N` is read as: the gitattributes pattern that matches N with every character literal (a slash-less name therefore still matches in every directory below the attributes file, as Git defines)",
 		"pre: whether the generated line makes its pattern tracked/lockable before the first operation is taken from Git's reading of the generated file (all probes the pattern denotes report filter=lfs / lockable set), what the other lines mean from Git's reading of the same file without that line; nothing is assumed about how git-lfs parses the file",
 		"pre: a line whose pattern is P in Git's documented syntax (C-quoted, after a byte order mark, attributes given through a macro, TAB-separated) is P's assignment: `untrack P` must end Git reporting filter=lfs for P's paths, `track --not-lockable P` must end Git reporting lockable",
 		"pre: for the denoted paths only filter and lockable are judged; other attributes the replaced line carried (foo=bar, eol=...) are not demanded to survive",
+		"pre, multiplicity: every line whose pattern is P (copies, the other spelling, `P lockable`) is P's assignment, none of them is one of the OTHER lines; with several lines Git decides attribute by attribute (the last line mentioning it wins) and the start model is Git's reading of the whole file",
 	}
 
 	// confirmation re-executes the case and its minimal form; other shrink candidates come from the exploration memo
@@ -1853,7 +1882,7 @@ func TestVerifC19(t *testing.T) {
 			n0, tr0 := len(stB.States), stB.Transitions
 			levels, closed := b.bfs(stB, deadlineB, maxStates)
 			allClosed = allClosed && closed
-			per = append(per, map[string]interface{}{"config": b.name, "closure_reached": closed, "bfs_levels": levels, "new_states": len(stB.States) - n0, "transitions": stB.Transitions - tr0, "wall_s": time.Since(t1).Seconds()})
+			per = append(per, map[string]interface{}{"config": b.name, "closure_reached": closed, "sequence_length_bound": b.depth, "bfs_levels": levels, "new_states": len(stB.States) - n0, "transitions": stB.Transitions - tr0, "wall_s": time.Since(t1).Seconds()}) // closure_reached with a sequence_length_bound > 0: nothing was cut except at that stated bound
 		}
 		h.release("seq", stB)
 		parts = append(parts, vx.Part{Scenario: "seq", Stats: stB, Exec: execB})
